@@ -4,7 +4,7 @@ use crate::lexer::{Cursor, Error, Token, TokenKind, Tokenizer, token::Numeric};
 use crate::source::ReadChar;
 use boa_ast::PositionGroup;
 use boa_interner::Interner;
-use num_bigint::BigInt;
+use num_bigint::{BigInt, BigUint};
 use num_traits::{ToPrimitive, Zero};
 use std::str;
 
@@ -176,6 +176,22 @@ where
     } else {
         Ok(())
     }
+}
+
+/// Converts an integer to the nearest `f64`, with ties to even.
+///
+/// `ToPrimitive::to_f64` doesn't round correctly the integers wider than 128 bits.
+fn biguint_to_f64(int: &BigUint) -> f64 {
+    // Keep the 64 most significant bits, and set the lowest of them if any of the discarded
+    // bits is set (round to odd), so that the cast to `f64` rounds the whole integer correctly.
+    let shift = int.bits().saturating_sub(64);
+    let mut high = (int >> shift).to_u64().expect("has at most 64 bits");
+    if int.trailing_zeros().is_some_and(|zeros| zeros < shift) {
+        high |= 1;
+    }
+    #[allow(clippy::cast_precision_loss)]
+    let high = high as f64;
+    high * 2f64.powi(i32::try_from(shift).unwrap_or(i32::MAX))
 }
 
 impl<R> Tokenizer<R> for NumberLiteral {
@@ -415,7 +431,7 @@ impl<R> Tokenizer<R> for NumberLiteral {
             NumericKind::Integer(base) => {
                 i32::from_str_radix(num_str, base).map_or_else(|_| {
                     let num = BigInt::parse_bytes(num_str.as_bytes(), base).expect("Failed to parse integer after checks");
-                    Numeric::Rational(num.to_f64().unwrap_or(f64::INFINITY))
+                    Numeric::Rational(biguint_to_f64(num.magnitude()))
                 }, Numeric::Integer)
             }
         };
